@@ -1211,6 +1211,14 @@ class EventBus:
             # Cancel the monitor task on timeout too
             monitor_task.cancel()
 
+            if handler_task is None or (handler_task.done() and not handler_task.cancelled() and handler_task.exception() is e):
+                # The handler's deadline did not pass: the handler raised this TimeoutError itself (an inner wait_for, a
+                # socket timeout, @retry(timeout=...)). That is an error of this handler like any other: record the original
+                # exception object and leave the processing of its child events alone
+                event.event_result_update(handler=handler, eventbus=self, error=e)
+                logger.error(f'❌ {self} Error in event handler {get_handler_name(handler)}({event}) -> {type(e).__name__}({e})')
+                raise
+
             # Create a RuntimeError for timeout
             children = (
                 f' and interrupted any processing of {len(event.event_children)} child events' if event.event_children else ''
